@@ -723,6 +723,17 @@ impl Sim {
         c.session += 1;
         c.max_size = max_size;
         c.authorized = false;
+        // a transport with an asynchronous handshake reports Connecting for a frame or two first
+        // (decided from the seed without touching the run's random stream)
+        let h = crate::util::fnv64(&[self.seed.to_le_bytes(), (i as u64).to_le_bytes(), (c.session as u64).to_le_bytes()].concat());
+        if h % 3 == 0 {
+            c.app.world_mut().resource_mut::<RepliconClient>().set_status(RepliconClientStatus::Connecting);
+            for _ in 0..1 + (h >> 8) % 2 {
+                update_app(&mut c.app);
+            }
+            self.obs.inc("connects_through_connecting");
+        }
+        let c = &mut self.clients[i];
         c.app.world_mut().resource_mut::<RepliconClient>().set_status(RepliconClientStatus::Connected);
         let sess = c.session;
         if self.cfg.events {
